@@ -220,6 +220,9 @@ def run(repo, tier):
     res.floor('SLICE-KIND', 4)
     from .C05 import labels_fast_path
     labels_fast_path(repo, res, repo.get_class('photutils.segmentation.core.SegmentationImage'))
+    # the property reads the segmentation image through its cached attributes: they must describe the current label array
+    from . import lazyrules as _LR
+    _LR.run_L1(repo, res, PROP, _LR.lazy_classes(repo, only={'photutils.segmentation.core.SegmentationImage'}))
     from .common import run_generic_pack
     run_generic_pack(repo, res, PROP, MODS)
     return res
